@@ -2,7 +2,8 @@
 
 Implementation side: the real credits mode (mpf/modes/credits) on a real machine: coin switches, service-credit switch,
 credit events, the start button (attract's request_to_start_game / the game's request_player_add), ball ends, game
-ends, the two expiration delays on virtual time, free-play toggles, credits_reset / slam_tilt / earnings_reset.
+ends, the two expiration delays on virtual time, free-play toggles, credits_reset / slam_tilt / earnings_reset, power
+cycles (a new machine booted from what the old one saved), the coin-inhibit output, the events the mode posts.
 Model side: MpfVerif.Model.Credits (integer credit units) through the compiled driver drv_c20.
 Oracle (independent of the model, exact rational arithmetic): bounds, start only with a full price, exact deduction,
 audits = coins accepted, balance = reference pricing (cumulative greedy tier bonus) of the money inserted.
@@ -26,26 +27,41 @@ def _gen_credits():
     return credits_gen.generate()
 
 
-GEN = [_gen_credits]
+def _gen_credits_ops():
+    from translate import credits_eff
+    return credits_eff.generate()
+
+
+GEN = [_gen_credits, _gen_credits_ops]
 MANIFEST = {
-    "text": "Proof on an integer credit-unit Lean model of the credits mode (unit and pricing-table calculation, _add_credit_units with cap and tier bonus, start / player-add gate, deduction, fractional and full expiration, free-play switching, service credits, credit events, audits): for every well-formed price/tier/coin/max configuration and every history of coins, service credits, credit events, start requests, ball and game ends, clock advances, play-mode toggles and resets, 0 <= balance <= max_credits * units per game after every step; a game or player starts in credit play only with a full price available and deducts exactly that; the earnings audits equal the coins accepted; the balance obeys the ledger coins + tier bonus + granted credits - deducted prices - (capped or expired units); the unit-by-unit bonus loop grants exactly the cumulative tier bonus. The three integer decision kernels (cap-and-store of _add_credit_units, _clear_fractional_credits, the deduction of _player_added) are regenerated from credits.py on every run and proved equal to what the model computes; the rest of the hand model is tied by a correspondence run on the real credits mode of a real machine (balance, tier counter, strings, game/player state, delays, audits compared after every op), and the property's clauses are recomputed independently from each op history.",
-    "note": "Trusted: Lean kernel + standard axioms; translate/credits_gen.py (Python ast -> straight-line Lean Int code; Python % = Int.emod for a positive divisor); the hand-written rest of Model/Credits.lean (pricing-tier loop, unit calculation, gate, timers: validated only by the differential run - the loop with its attribute counter and dict lookup is outside the translator subset); float arithmetic is exact only when prices and coin values are whole multiples of the credit unit and dyadic (0.25 steps): other configurations are counted as outside the model. Not modelled: persistence of credit_units across power cycles, coin inhibit output, settings-menu changes of prices, extra balls, replay award via a conditional game_ending event.",
-    "technique": "Lean 4 theorems (invariants by induction over the op list, omega) on a hand model whose integer kernels are machine-translated from the source on every run + differential correspondence and an independent rational-arithmetic oracle on the real credits mode",
+    "text": "Proof on an integer credit-unit Lean model of the credits mode (unit and pricing-table calculation, _add_credit_units with cap and tier bonus, start / player-add gate, deduction, fractional and full expiration, free-play switching, service credits, credit events, audits, coin-inhibit output, posted events, power cycles with the on-disk expiry of credit_units): for every well-formed price/tier/coin/max configuration (any combination of coin switches, service switch and credit events, including none) and every history of coins, service credits, credit events, start requests, ball and game ends, clock advances, play-mode toggles (also with a coin in flight), resets and power cycles, 0 <= balance <= max_credits * units per game after every step; a game or player starts in credit play only with a full price available and deducts exactly that; the earnings audits equal the coins accepted; the balance obeys the ledger coins + tier bonus + granted credits - deducted prices - (capped, expired or lost-at-power-off units); a power cycle keeps the balance or drops it; the unit-by-unit bonus loop grants exactly the cumulative tier bonus. Tie to the source: (1) the three integer decision kernels (cap-and-store of _add_credit_units, _clear_fractional_credits, the deduction of _player_added) and (2) seven whole handlers (_request_to_start_game, _player_add_request, _game_started, _game_ended, _clear_fractional_credits, clear_all_credits, toggle_credit_play) are regenerated from credits.py on every run - the handlers as programs for a stateful interpreter (object state, effect log: variable writes, events, delays, audit/display calls) - and proved to do exactly what the hand model does (handlers_refine_source); 11 more methods (coin / event / service callbacks, _add_credit_units with its loop, _player_added, _ball_starting, coin inhibit, timeouts) are regenerated too, so they must stay inside the translated subset, but their equality with the hand model is checked by the correspondence run only. The rest of the hand model is tied by a correspondence run on the real credits mode of a real machine (balance, tier counter, strings, game/player state, delays, audits, posted events, coin-inhibit output compared after every op, across power cycles), and the property's clauses are recomputed independently from each op history in exact rational arithmetic (also for decimal prices such as 0.10 / 0.30 / 0.35 that are not doubles).",
+    "note": "Trusted: Lean kernel + standard axioms; translate/credits_gen.py (Python ast -> straight-line Lean Int code) and translate/credits_eff.py + Model/PyStore.lean (Python ast -> data for a fixed stateful interpreter; exact `/`, Python `%` for a positive divisor) with the hand-written meaning of logged actions in Model/CreditsGen.lean (`applyEff`: opaque methods _update_credit_strings / _audit* / enable_*_play mean the corresponding piece of the hand model; anything without a meaning raises a flag that the theorems prove is never raised); the hand-written rest of Model/Credits.lean (pricing-tier table, unit calculation, game rotation, timers, power cycle: validated only by the differential run). The model's numbers are exact; mpf computes with doubles, and the check demands the exact result. Not modelled: prices changed through settings at run time (the code re-reads them only in enable_credit_play), the tier counter across a power cycle is simply restarted (it is an instance attribute, not a machine variable), credit events with fractional credits, extra balls, replay award via a conditional game_ending event; audit totals are compared up to 1e-6 (mpf sums floats: 0.1+0.2 is counted as an observation).",
+    "technique": "Lean 4 theorems (invariants by induction over the op list, omega) on a hand model; integer kernels and seven handlers machine-translated from the source on every run and proved equal to the hand model (deep embedding with store + effect log); differential correspondence and an independent rational-arithmetic oracle on the real credits mode incl. power cycles",
     "translated": True,
 }
-RULE = ("a case = one credits configuration (price, 0-3 coin switches, 0-3 pricing tiers incl. one cheaper than its "
-        "predecessor, max_credits incl. 0, expiration times, boot in free or credit play; the two price configurations "
-        "of mpf/tests/machine_files/credits are drawn 30% of the time) + 5-45 ops (coin i, service, credit event, "
-        "start button, ball end, game end, clock advance to/around the expiration deadlines, free-play on/off/toggle, "
-        "credits_reset, slam_tilt, earnings_reset), with a stream biased to fill up to the cap. non-trivial = at "
-        "least one coin was accepted and one start request was made; distinct = canonical JSON of (config, ops)")
-TRUSTED = ["modelled, not verified: float arithmetic of prices (exact for the generated dyadic values), DelayManager / "
-           "asyncio timers (TimeTravelLoop), the game mode's player-add and ball rotation rules, machine-variable store, "
-           "earnings data manager (mocked by the test scaffolding)",
-           "Model/Credits.lean is hand-written; tied to mpf/modes/credits/code/credits.py by correspondence on every run"]
-ASSUMPTIONS = ["prices and coin values are whole multiples of the computed credit unit and of 0.25 (float-exact); a tier "
-               "never gives fewer credits than its price buys (no negative bonus); credit events give whole credits",
-               "credit_units is not restored from persisted machine variables (fresh boot)"]
+RULE = ("a case = one credits configuration (price, 0-3 coin switches each with an audit class and an optional label, 0-3 "
+        "pricing tiers incl. one cheaper than its predecessor, max_credits incl. 0, expiration times, "
+        "persist_credits_while_off_time 0/8/64/3600 s, with/without service switch, 0-2 credit events, with/without coin-inhibit "
+        "output, boot in free or credit play; event-only, switch-only, service-only and empty configurations are forced 19% of "
+        "the time; decimal non-double prices (nickels/dimes) 10%; the two price configurations of mpf/tests/machine_files/credits "
+        "30%) + 5-45 ops (coin i, service, credit event, start button, ball end, game end, clock advance to/around the "
+        "expiration deadlines, free-play on/off/toggle, a coin with a toggle request in the queue, credits_reset, slam_tilt, "
+        "earnings_reset, power cycle with an off-time around the persistence deadlines), with a stream biased to fill up to "
+        "the cap. non-trivial = at least one coin was accepted and one start request was made; distinct = canonical JSON of "
+        "(config, ops)")
+TRUSTED = ["modelled, not verified: DelayManager / asyncio timers (TimeTravelLoop), the game mode's player-add and ball rotation "
+           "rules, the machine-variable store and its load-time expiry test (mpf/core/machine_vars.py; the harness carries the "
+           "saved dictionaries of the test data managers over a power cycle and shifts the absolute expiry stamps by the off-time), "
+           "the virtual platform's driver state for the coin-inhibit output",
+           "Model/Credits.lean is hand-written; seven handlers and three kernels are proved equal to the regenerated source, the "
+           "rest is tied to mpf/modes/credits/code/credits.py by correspondence on every run",
+           "the oracle fails only on the property's clauses (bounds, start needs a full price, exact deduction, coin audits per "
+           "class and label, balance = pricing reference, a power cycle keeps or drops the balance); display strings, a start refused "
+           "despite a full price, award / service / paid-game counters and float drift of audit sums are counted as observations"]
+ASSUMPTIONS = ["prices and coin values are whole multiples of the computed credit unit (otherwise `_add_credit_units` refuses the "
+               "coin by design: counted as outside); a tier never gives fewer credits than its price buys (no negative bonus); "
+               "credit events give whole credits",
+               "prices do not change at run time (no settings-driven price templates)"]
 
 GAME = {"balls_per_game": 2, "max_players": 3}
 SUITE_CONFIGS = [
@@ -95,12 +111,48 @@ def gen_cfg_once(r):
             if len(tiers) > 1 and r.random() < 0.12:
                 tiers.append([max(25, last - 25 * r.randint(1, 3)), r.randint(1, 4)])   # cheaper than predecessor: skipped
         cfg = {"coins": coins, "tiers": tiers, "max": r.choice([0, 1, 2, 3, 3, 5, 12])}
-        if r.random() < 0.04:      # float-inexact dime prices: outside the model, counted only
-            cfg["tiers"] = [[30, 1]]
-            cfg["coins"] = [10]
+        if r.random() < 0.10:
+            # decimal prices whose nearest double is not the number (0.1, 0.3, 0.35, 0.7 ...): nickels and dimes
+            b = r.choice([5, 10, 10, 20])
+            p = b * r.choice([1, 2, 3, 3, 6, 7, 7, 9])
+            cfg["coins"] = sorted(set(b * r.choice([1, 1, 2, 3, 6]) for _ in range(r.choice([1, 1, 2]))))
+            cfg["tiers"] = [[p, 1]]
+            if r.random() < 0.5:
+                cfg["tiers"].append([p * 3, 3 + r.choice([0, 1, 2])])
     cfg["frac"] = r.choice([0, 4, 16, 16])
     cfg["all"] = r.choice([0, 8, 64, 64])
     cfg["fp"] = r.random() < 0.15
+    # which credit sources are configured at all: coin switches / service switch / credit events, in every combination
+    cfg["svc"] = r.random() < 0.75
+    cfg["evs"] = r.choice([[], [1], [1, 2], [1, 2], [2, 3]])
+    shape = r.random()
+    if shape < 0.07:        # event-only
+        cfg["coins"], cfg["svc"], cfg["evs"] = [], False, r.choice([[1], [1, 2]])
+    elif shape < 0.12:      # switch-only
+        cfg["svc"], cfg["evs"] = False, []
+        if not cfg["coins"]:
+            cfg["coins"] = [r.choice([25, 50, 100])]
+    elif shape < 0.16:      # service-only
+        cfg["coins"], cfg["svc"], cfg["evs"] = [], True, []
+    elif shape < 0.19:      # no credit source at all
+        cfg["coins"], cfg["svc"], cfg["evs"] = [], False, []
+    # audit class and label of every coin switch
+    cfg["ctype"] = [r.choice(["money", "money", "token"]) for _ in cfg["coins"]]
+    cfg["clabel"] = [r.choice([None, None, "left", "right"]) for _ in cfg["coins"]]
+    cfg["persist"] = r.choice([0, 8, 64, 3600, 3600])
+    cfg["inh"] = r.random() < 0.3
+    return cfg
+
+
+def norm_cfg(cfg):
+    """defaults for the keys added later (replay files written by older versions of this check)"""
+    cfg = dict(cfg)
+    cfg.setdefault("svc", True)
+    cfg.setdefault("evs", [1, 2])
+    cfg.setdefault("ctype", ["money"] * len(cfg["coins"]))
+    cfg.setdefault("clabel", [None] * len(cfg["coins"]))
+    cfg.setdefault("persist", 3600)
+    cfg.setdefault("inh", False)
     return cfg
 
 
@@ -150,14 +202,24 @@ def build_config(cfg):
     for i in range(len(cfg["coins"])):
         L += ["  s_c%d:" % i, "    number: %d" % (i + 1)]
     L += ["  s_esc:", "    number: 10", "  s_start:", "    number: 11", "    tags: start"]
+    if cfg["inh"]:
+        L += ["digital_outputs:", "  o_inh:", "    type: driver", "    number: 1"]
     L += ["credits:", "  max_credits: %d" % cfg["max"], "  free_play: %s" % ("yes" if cfg["fp"] else "no"),
-          "  service_credits_switch: s_esc"]
+          "  persist_credits_while_off_time: %ds" % cfg["persist"]]
+    if cfg["svc"]:
+        L.append("  service_credits_switch: s_esc")
+    if cfg["inh"]:
+        L.append("  coin_inhibit_disable_output: o_inh")
     if cfg["coins"]:
         L.append("  switches:")
         for i, c in enumerate(cfg["coins"]):
-            L += ["    - switch: s_c%d" % i, "      type: money", "      value: %s" % money(c)]
-    L += ["  events:", "    - event: award_0", "      type: award", "      credits: 1",
-          "    - event: award_1", "      type: award", "      credits: 2"]
+            L += ["    - switch: s_c%d" % i, "      type: %s" % cfg["ctype"][i], "      value: %s" % money(c)]
+            if cfg["clabel"][i]:
+                L.append("      label: %s" % cfg["clabel"][i])
+    if cfg["evs"]:
+        L.append("  events:")
+        for j, k in enumerate(cfg["evs"]):
+            L += ["    - event: award_%d" % j, "      type: award", "      credits: %d" % k]
     if cfg["tiers"]:
         L.append("  pricing_tiers:")
         for p, cr in cfg["tiers"]:
@@ -166,14 +228,12 @@ def build_config(cfg):
     return "\n".join(L) + "\n"
 
 
-EVENT_CREDITS = [1, 2]
-
-
 def cfg_line(cfg):
-    return "cfg 100 %d %d %d %d %d %d c:%s t:%s e:%s" % (
+    return "cfg 100 %d %d %d %d %d %d %d %d %d c:%s t:%s e:%s" % (
         cfg["max"], cfg["frac"], cfg["all"], GAME["balls_per_game"], GAME["max_players"], 1 if cfg["fp"] else 0,
+        1 if cfg["svc"] else 0, cfg["persist"], 1 if cfg["inh"] else 0,
         ",".join(map(str, cfg["coins"])), ",".join("%d/%d" % (p, c) for p, c in cfg["tiers"]),
-        ",".join(map(str, EVENT_CREDITS)))
+        ",".join(map(str, cfg["evs"])))
 
 
 # ------------------------------------------------------------------------------------------------------ ops
@@ -207,6 +267,10 @@ def gen_ops(r, cfg):
             ops.append(["service"])
         elif k < 0.73:
             ops.append(["event", r.randrange(2)])
+        elif k < 0.755:
+            ops.append(["reboot", r.choice(OFF_TIMES)])
+        elif k < 0.775 and nc:
+            ops.append(["cointog", r.randrange(nc)])
         elif k < 0.82:
             ops.append(["adv", r.choice([1, 2, 3, 4, 7, 8, 14, 15, 16, 17, 62, 63, 64, 65])])
         elif k < 0.90:
@@ -220,14 +284,23 @@ def gen_ops(r, cfg):
     return ops
 
 
+OFF_TIMES = [0, 1, 2, 5, 6, 7, 8, 9, 60, 62, 63, 64, 65, 3590, 3598, 3599, 3600, 3601, 5000]
+
+
 def op_line(op):
     return " ".join(str(x) for x in op)
+
+
+EVENTS_WATCHED = ("credits_added", "max_credits_reached", "not_enough_credits")
 
 
 class Run:
     def __init__(self, cfg):
         self.cfg = cfg
-        self.vm = VMachine(build_config(cfg))
+        self.yaml = build_config(cfg)
+        self.vm = VMachine(self.yaml)
+        self.posted = {e: 0 for e in EVENTS_WATCHED}
+        self.payloads = []          # non-empty keyword arguments seen on a watched event
 
     def start(self):
         self.vm.start()
@@ -235,8 +308,30 @@ class Run:
         m.playfield.add_ball = MagicMock()
         m.ball_controller.num_balls_known = 3
         self.c = m.modes["credits"]
+        for e in EVENTS_WATCHED:
+            m.events.add_handler(e, self._seen, priority=1, _ev=e)
         self.vm.align(1.0)
         return self
+
+    def _seen(self, _ev, **kwargs):
+        self.posted[_ev] += 1
+        if kwargs:
+            self.payloads.append((_ev, sorted(kwargs)))
+
+    def reboot(self, off):
+        """power cycle: what the machine-variable and earnings data managers last saved is what is on disk; the new
+        machine's clock starts at 0 = the old clock at power-off + `off` seconds"""
+        import copy
+        m = self.m
+        t_stop = self.vm.now()
+        disk = copy.deepcopy(m.variables.machine_var_data_manager.data)
+        for v in disk.values():
+            if isinstance(v, dict) and v.get("expire"):
+                v["expire"] = v["expire"] - t_stop - off
+        earnings = copy.deepcopy(self.c.data_manager.data)
+        self.vm.stop()
+        self.vm = VMachine(self.yaml, mock_data={"machine_vars": disk, "earnings": earnings})
+        self.start()
 
     def stop(self):
         self.vm.stop()
@@ -265,11 +360,18 @@ class Run:
                     m.game.end_game()
             elif k == "adv":
                 pass
+            elif k == "reboot":
+                self.reboot(op[1])
+            elif k == "cointog":
+                # the toggle request is in the event queue when the coin drops
+                vm.post("toggle_credit_play")
+                vm.hit_switch("s_c%d" % op[1], 1)
+                vm.hit_switch("s_c%d" % op[1], 0)
             else:
                 vm.post({"fpon": "enable_free_play", "fpoff": "enable_credit_play", "toggle": "toggle_credit_play",
                          "reset": "credits_reset", "slam": "slam_tilt", "earnreset": "earnings_reset"}[k])
             for _ in range(8):      # the game-start / ball-end flows need a few loop iterations, no time
-                vm.run()
+                self.vm.run()
             return None
         except CaseTimeout:
             raise
@@ -296,9 +398,16 @@ class Run:
         return 0 if g is None else g.num_players
 
     def audits(self):
+        """(coins, earnings, award credits, service credits, paid games), coins and earnings summed over the audit classes"""
         e = self.c.earnings
-        return (e.get("1 Total Coins money", 0), e.get("2 Total Earnings money", 0), e.get("award Awards", 0),
+        return (sum(v for k, v in e.items() if k.startswith("1 Total Coins ")),
+                sum(v for k, v in e.items() if k.startswith("2 Total Earnings ")), e.get("award Awards", 0),
                 e.get("service_credit Awards", 0), e.get("3 Total Paid Games", 0))
+
+    def inhibit(self):
+        if not self.cfg["inh"]:
+            return "-"
+        return "1" if self.m.digital_outputs["o_inh"].hw_driver.state == "enabled" else "0"
 
     def obs(self):
         m, c = self.m, self.c
@@ -316,10 +425,11 @@ class Run:
         a = self.audits()
         earn = Fraction(a[1]).limit_denominator(10 ** 6) * 100
         v, s = m.variables.get_machine_var("credits_value"), m.variables.get_machine_var("credits_string")
-        return "u=%s t=%s r=%d fp=%d g=%s fd=%s ad=%s a=%s/%s/%s/%s/%s v=%s;%s" % (
+        return "u=%s t=%s r=%d fp=%d g=%s fd=%s ad=%s a=%s/%s/%s/%s/%s ev=%d/%d/%d ci=%s v=%s;%s" % (
             self.units() or 0, c.credit_units_for_pricing_tiers, 1 if c.reset_pricing_tier_count_this_game else 0,
             1 if self.free_play() else 0, gs, due("clear_fractional_credits"), due("clear_all_credits"),
-            a[0], earn, a[2], a[3], a[4], "-" if v is None else v, "-" if s is None else s)
+            a[0], earn, a[2], a[3], a[4], self.posted["credits_added"], self.posted["max_credits_reached"],
+            self.posted["not_enough_credits"], self.inhibit(), "-" if v is None else v, "-" if s is None else s)
 
     def calc(self):
         c = self.c
@@ -337,11 +447,8 @@ class Oracle:
         self.unit, self.upg, _, _ = ref_units(cfg)
         self.tiers, self.wrap = ref_tiers(cfg, self.unit, self.upg)
         self.cap = cfg["max"] * self.upg
-        self.coins = 0
-        self.money = Fraction(0)
-        self.awards = 0
-        self.service = 0
-        self.paid = 0
+        self.aud = {}          # reference earnings audits, by key
+        self.notes = {}        # observations that are not clauses of the property (counted, never failed on)
         self.balance = 0       # reference balance
         self.run_units = 0     # units bought since the tier count last restarted
         self.restarted_this_game = False   # the ball-2 restart happens once per game (games seen in credit play)
@@ -349,6 +456,21 @@ class Oracle:
 
     def fail(self, sig, **detail):
         self.bad.append((sig, detail))
+
+    def note(self, name):
+        self.notes[name] = self.notes.get(name, 0) + 1
+
+    def audit(self, key, v):
+        self.aud[key] = self.aud.get(key, 0) + v
+
+    def coin_accepted(self, i):
+        v = Fraction(self.cfg["coins"][i], 100)
+        cls, label = self.cfg["ctype"][i], self.cfg["clabel"][i]
+        self.audit("1 Total Coins " + cls, 1)
+        self.audit("2 Total Earnings " + cls, v)
+        if label:
+            self.audit(label + " Coins " + cls, 1)
+            self.audit(label + " Earnings " + cls, v)
 
     def add(self, n, bonus):
         total = self.balance + n + bonus
@@ -369,7 +491,7 @@ class Oracle:
             return
         # ---- reference balance: what the pricing table yields for the money inserted
         if not fp0:
-            if k == "coin":
+            if k in ("coin", "cointog"):
                 v = Fraction(self.cfg["coins"][op[1]], 100)
                 n = int(v / self.unit)
                 x = self.run_units % self.wrap
@@ -377,24 +499,32 @@ class Oracle:
                     - ref_cum(self.tiers, x)
                 self.run_units = x + n
                 self.add(n, bonus)
-                self.coins += 1
-                self.money += v
-            elif k == "service":
+                self.coin_accepted(op[1])
+            elif k == "service" and self.cfg["svc"]:
                 self.add(self.upg, 0)
-                self.service += 1
-            elif k == "event":
-                self.add(EVENT_CREDITS[op[1]] * self.upg, 0)
-                self.awards += EVENT_CREDITS[op[1]]
+                self.audit("service_credit Awards", 1)
+            elif k == "event" and op[1] < len(self.cfg["evs"]):
+                self.add(self.cfg["evs"][op[1]] * self.upg, 0)
+                self.audit("award Awards", self.cfg["evs"][op[1]])
         if k in ("reset", "slam"):
             self.balance = 0
             self.run_units = 0
         if k == "earnreset":
-            self.coins, self.money, self.awards, self.service, self.paid = 0, Fraction(0), 0, 0, 0
+            self.aud = {}
+        if k == "reboot":
+            # the property has expirations, and a power cycle may be one: the balance survives or is gone, nothing else
+            if u1 not in (u0, 0):
+                self.fail("reboot-balance", op=op, units_before=u0, units_after=u1)
+            self.note("reboot_kept" if u1 == u0 else "reboot_dropped")
+            self.balance = u1
+            self.run_units = 0
+            self.restarted_this_game = False
         added = pl1 - pl0 if pl1 > pl0 else 0
         if k == "start" and not fp0 and u0 >= self.upg and not added and \
                 (pl0 == 0 or (pl0 < GAME["max_players"] and ball0 is not None and ball0[1] <= 1)):
-            # with a full price available the start button is not refused (no game yet, or a game on ball 1 with room)
-            self.fail("start-refused-with-full-price", op=op, units_before=u0, price_units=self.upg, players=[pl0, pl1])
+            # with a full price available the start button is not refused (no game yet, or a game on ball 1 with room):
+            # more than the property states ("starts only when"), so an observation
+            self.note("obs_start_refused_with_full_price")
         if added and not fp0:
             # ---- a game or an additional player starts only when a full price is available ...
             if u0 < self.upg:
@@ -403,7 +533,7 @@ class Oracle:
             if u1 != u0 - self.upg * added or added != 1:
                 self.fail("deduction-not-exact", op=op, units_before=u0, units_after=u1, price_units=self.upg,
                           players=[pl0, pl1])
-            self.paid += added
+            self.audit("3 Total Paid Games", added)
             self.balance -= self.upg * added
             if pl0 == 0:
                 self.run_units = 0      # pricing tiers restart with the game
@@ -413,12 +543,33 @@ class Oracle:
         if u1 != self.balance:
             self.fail("balance-mismatch", op=op, units=u1, reference=self.balance, units_before=u0)
             self.balance = u1
-        a = run.audits()
-        if (a[0], Fraction(a[1]).limit_denominator(10 ** 6), a[2], a[3], a[4]) != \
-                (self.coins, self.money, self.awards, self.service, self.paid):
-            self.fail("audit-mismatch", op=op, audits=[str(x) for x in a],
-                      reference=[self.coins, str(self.money), self.awards, self.service, self.paid])
-            self.coins, self.money, self.awards, self.service, self.paid = a[0], Fraction(a[1]).limit_denominator(10 ** 6), a[2], a[3], a[4]
+        self.check_audits(op, run)
+
+    def check_audits(self, op, run):
+        """the earnings audits equal the coins accepted: per audit class and per labelled switch (count and value); the
+        award / service-credit / paid-game counters are not in the property's text: compared, counted, not failed on"""
+        e = run.c.earnings
+        real = {}
+        for key, v in e.items():
+            if key[:2] in ("4 ", "5 ", "6 "):
+                continue
+            if isinstance(v, float):
+                f = Fraction(v).limit_denominator(10 ** 6)
+                if float(f) != v:
+                    self.note("obs_audit_float_drift")
+                v = f
+            real[key] = v
+        want = {k: v for k, v in self.aud.items() if v}
+        real = {k: v for k, v in real.items() if v}
+        if real != want:
+            other = ("service_credit Awards", "award Awards", "3 Total Paid Games")
+            coin_keys = [k for k in set(real) | set(want) if k not in other and real.get(k) != want.get(k)]
+            if coin_keys:
+                self.fail("audit-mismatch", op=op, audits={k: str(real.get(k)) for k in coin_keys},
+                          reference={k: str(want.get(k)) for k in coin_keys})
+            else:
+                self.note("obs_audit_other_mismatch")
+            self.aud = dict(real)
 
     def display(self, op, run):
         """the credits_string / credits_value machine variables show the balance (whole credits and the fraction)"""
@@ -432,7 +583,7 @@ class Oracle:
             want_v = ("%d %d/%d" % (whole, num, self.upg) if whole else "%d/%d" % (num, self.upg)) if num else str(whole)
             want_s = "CREDITS " + want_v
         if (s, v) != (want_s, want_v):
-            self.fail("display-mismatch", op=op, credits_string=s, credits_value=v, expected=[want_s, want_v])
+            self.note("obs_display_mismatch")       # the display variables are not in the property's text
 
     def ball2(self):
         """ball 2 of player 1 starts while the machine is in credit play: the tier count restarts, once per game"""
@@ -497,9 +648,11 @@ def execute(cfg, ops, model):
 
 def execute_unguarded(cfg, ops, model):
     """-> (oracle failures [(sig, detail)], comparisons [(what, impl, model)], stats)"""
+    cfg = norm_cfg(cfg)
     run = Run(cfg)
     run.start()
     comps, stats = [], {"accepted_coins": 0, "starts": 0, "added": 0, "capped": 0, "expired": 0}
+    orc = None
     try:
         orc = Oracle(cfg)
         ans = ""
@@ -521,7 +674,7 @@ def execute_unguarded(cfg, ops, model):
             orc.after_act(op, before, run, cr)
             if cr:
                 break
-            if op[0] == "coin" and not before[1]:
+            if op[0] in ("coin", "cointog") and not before[1]:
                 stats["accepted_coins"] += 1
                 if orc.cap and (run.units() or 0) == orc.cap:
                     stats["capped"] += 1
@@ -545,18 +698,30 @@ def execute_unguarded(cfg, ops, model):
                 stats["expired"] += 1
             if model is not None:
                 comps.append((op_line(op), run.obs(), model.ask(op_line(op))))
+        if run.payloads:
+            stats["obs_event_payload"] = len(run.payloads)
         return orc.bad, comps, stats
     finally:
+        if orc is not None:
+            for k, v in orc.notes.items():
+                stats[k] = stats.get(k, 0) + v
         run.stop()
 
 
 def run_case(ctx, cfg, ops, model, sample=True):
     case = {"cfg": cfg, "ops": ops}
     unit, upg, exact, dyadic = ref_units(cfg)
-    if not exact or not dyadic:
-        ctx.count("outside_model_inexact_units" if not exact else "outside_model_float_inexact")
+    if not exact:
+        # the credit unit does not divide every value: `_add_credit_units` refuses such a coin ("need to be ints")
+        ctx.count("outside_model_inexact_units")
         ctx.evaluated(case, False, sample=False)
         return
+    if not dyadic:
+        ctx.count("float_inexact_values")     # 0.1 / 0.3 / 0.35 ...: exact in the model and the oracle, floats in mpf
+    for key in ("svc", "inh"):
+        if cfg.get(key):
+            ctx.count("cfg_" + key)
+    ctx.count("cfg_sources_%s%s%s" % ("c" if cfg["coins"] else "-", "s" if cfg.get("svc") else "-", "e" if cfg.get("evs") else "-"))
     try:
         bad, comps, stats = execute(cfg, ops, model)
     except BootError as e:
@@ -617,12 +782,13 @@ def run_range(ctx, lo, hi):
 
 
 def run(ctx):
-    total = ctx.n(600, 9000)
+    import os
+    total = ctx.n(500, 9000)
     if total <= 1000:
         run_range(ctx, 0, total)
     else:       # thorough tier / failing-input search: fresh worker processes, 300 cases each
         from harness.common import pool_c20c11
-        pool_c20c11.run_parallel(ctx, "harness.corr." + ID, total)
+        pool_c20c11.run_parallel(ctx, "harness.corr." + ID, total, workers=int(os.environ.get("VERIF_WORKERS", "8")))
 
 
 def replay(ctx, rep):
